@@ -132,7 +132,7 @@ def sources(src: int, e0: int, e1: int, e2: int, e3: int, v0: int, v1: int, v2: 
 
 def history(o0: int, o1: int, o2: int, nm0: int, nm1: int, nm2: int) -> bool:
     """
-    pre: 0 <= o0 < 3 and 0 <= o1 < 3 and 0 <= o2 < 3
+    pre: 0 <= o0 < 4 and 0 <= o1 < 4 and 0 <= o2 < 4
     pre: 0 <= nm0 < 3 and 0 <= nm1 < 3 and 0 <= nm2 < 3
     post: _
     """
@@ -154,9 +154,19 @@ def history(o0: int, o1: int, o2: int, nm0: int, nm1: int, nm2: int) -> bool:
         nms = [nm0, nm1, nm2][:k]
         for step in range(k):
             op, name = ops[step], hx.pick(names, nms[step])
-            wi = 0 if op < 2 else 1
+            wi = 0 if op in (0, 1, 3) else 1
             env = envs[wi]
-            if op in (0, 2):          # add (or overwrite) on world 0 / world 1
+            if op == 3:               # an add on world 0 that FAILS (the caller catches the error and carries on)
+                def broken(pos, cells_):
+                    if pos[0] >= 1:
+                        raise RuntimeError("source failed for cell %r" % (pos,))
+                    return 0
+                try:
+                    env.add_cell_component(name, [0] * (n + 1) if step % 2 == 0 else broken)
+                    return hx.end(True)          # (accepted: nothing to compare - whether it must fail is not the subject)
+                except (ValueError, RuntimeError):
+                    hx.reach('add_failed')
+            elif op in (0, 2):          # add (or overwrite) on world 0 / world 1
                 data = [(step + 1) * 100 + wi * 10 + i for i in range(n)]
                 env.add_cell_component(name, list(data))
                 ref[wi][name] = data
@@ -275,7 +285,7 @@ def obligations(tier):
           timeout=1200, encoded=enc),
         X("history", history, parts=[{"world": w, "k": k} for w in (("line", "grid") if tier == "quick" else worlds)
                                      for k in ((2,) if tier == "quick" else (2, 3))],
-          labels=("added", "removed", "remove_rejected"), timeout=1200, encoded=enc),
+          labels=("added", "removed", "remove_rejected", "add_failed"), timeout=1200, encoded=enc),
         X("history_targeted", history, parts=[{"world": "line", "k": 3, "ops": [0, 0, 1]}, {"world": "grid", "k": 3, "ops": [0, 2, 1]}],
           labels=("removed",), timeout=600, encoded=enc, bounds={"history": "add, add, remove with solver-chosen names (one name contains another)"}),
         X("constant_generator", constant_generator, labels=("called",), timeout=120, encoded=(Env.ConstantGenerator.__call__,)),
